@@ -59,6 +59,7 @@ func init() {
 // nolint
 func acquireFromHolder(len int) (uintptr, *[]byte, error) {
 	placeholder := atomic.LoadUintptr(&placeHolderIns.off)
+	verifHook("holder.loaded", placeholder, uintptr(len))
 	if placeholder+uintptr(len) > placeHolderIns.max {
 		logger.Error("placeholder space usage overflow")
 		return 0, nil, errSpaceOverflow
@@ -66,6 +67,7 @@ func acquireFromHolder(len int) (uintptr, *[]byte, error) {
 
 	// add up to off
 	newOffset := atomic.AddUintptr(&placeHolderIns.off, uintptr(len))
+	verifHook("holder.added", newOffset, uintptr(len))
 	if newOffset > placeHolderIns.max {
 		logger.Error("placeholder space usage overflow", placeHolderIns.count, "hook functions")
 		return 0, nil, errSpaceOverflow
